@@ -26,7 +26,9 @@ def run(c):
     c.rule = ("every documented predicate x argument as a single-capture rule, a `$*xs` rule and a statement-capture rule over "
               "172 expression shapes (all type classes, constants, aliases, generics), 30 argument lists, 12 statements and 37 "
               "sink contexts; evaluations count (rule, site) pairs; a case is distinct by (predicate+argument, rule kind, site) "
-              "and non-trivial when the documented fact is decided (not 'either') for it")
+              "and non-trivial when the documented fact is decided (not 'either') for it; plus the located families (type patterns with "
+              "variables x parameter / result / field lists, Object.* / Type.Is on declaring identifiers, Contains() sub-patterns of every "
+              "root kind): a rule per (predicate, pattern, capture), sites = the captures a rule without Where() locates")
     c.trusted += [
         "go/types (AssignableTo, ConvertibleTo, Implements, Identical, Comparable, method sets, Info.Types, Sizes), go/ast, regexp: "
         "the facts are THEIR answers, computed in harness/cmd/c02 without going through ruleguard",
